@@ -21,6 +21,10 @@ for d in sorted(glob.glob(os.path.join(os.path.dirname(os.path.abspath(__file__)
     note = ""
     if first is not None and first.get("exit") == 0:
         note = "missed by the check as first built; caught after strengthening"
+    elif first is not None and first.get("exit") == 2:
+        note = "the check's own bookkeeping crashed on it (exit 2) as first built; hardened"
+    elif first is not None and any("no-failing-input-found" in ln for ln in (first.get("lines") or [])) and "no-failing" not in how:
+        note = "first reported without a concrete input; now with one"
     summ = " ".join(m.get("summary", "").split())
     if len(summ) > 230:
         summ = summ[:227] + "..."
